@@ -10,7 +10,7 @@ pub fn unhex(tok: &str) -> Vec<u8> {
 }
 
 pub fn exec_case(line: &str) -> Option<Vec<u64>> {
-    let toks: Vec<&str> = line.split_whitespace().collect();
+    let toks: Vec<&str> = line.split_whitespace().filter(|t| !t.starts_with('#')).collect();
     match toks[0] {
         "PKT" => { let b = unhex(toks[1]); guarded(move || obs::run_packet(&b)) }
         "P12" => { let b = unhex(toks[1]); guarded(move || obs::run_packet_c12(&b)) }
